@@ -11,6 +11,10 @@ import (
 	"strings"
 
 	snes "github.com/alttpo/snes"
+	"github.com/alttpo/snes/asm"
+	"github.com/alttpo/snes/color15"
+	"github.com/alttpo/snes/emulator"
+	"github.com/alttpo/snes/emulator/bus"
 
 	"verif/internal/vf"
 )
@@ -314,4 +318,69 @@ func runsThenJumps(r *vf.Run, check func(m *mapper, a uint32)) {
 		r.Eval(n)
 	})
 	r.Cell("runs-then-jumps")
+}
+
+// ErrorsFirst: what a process may have been through before the calls a monitor judges - every error
+// path of the library taken once, as the very first use of each part (a failed header parse, an image
+// that is too small, refused emitter calls, a failed Finalize, a failed listing, unattached bus reads, a
+// refused Attach, a zero divisor, unmapped addresses). Run by child processes started with
+// VERIF_ERRORS_FIRST=1 before the monitor itself.
+func ErrorsFirst() {
+	try := func(f func()) { vf.Try(f) }
+	// headers: short and failing readers first
+	for _, n := range []int{0, 1, 16, 63, 64, 79} {
+		n := n
+		try(func() { var h snes.Header; _ = h.ReadHeader(bytes.NewReader(make([]byte, n))) })
+	}
+	try(func() { _, _ = snes.NewROM("short", make([]byte, 100)) })
+	try(func() { _, _ = snes.NewROM("", nil) })
+	try(func() {
+		rom, err := snes.NewROM("ok", make([]byte, 0x8000))
+		if err == nil {
+			_, _ = rom.BusReader(0x000000).Read(make([]byte, 4))
+			_, _ = rom.BusWriter(0x000000).Write([]byte{1})
+			_, _ = rom.BusWriter(0x00FFFF).Write([]byte{1, 2, 3})
+			rom.HeaderOffset = 0x7FF0
+			_ = rom.ReadHeader()
+		}
+	})
+	// emitter: refusals and failures
+	try(func() { e := asm.NewEmitter(make([]byte, 1), true); e.LDA_imm8_b(1) })
+	try(func() { e := asm.NewEmitter(make([]byte, 8), true); e.Label("a"); e.Label("a") })
+	try(func() { e := asm.NewEmitter(make([]byte, 8), false); e.REP(0x30); e.LDA_imm8_b(1) })
+	try(func() { e := asm.NewEmitter(make([]byte, 8), true); e.BNE("nowhere"); _ = e.Finalize() })
+	try(func() {
+		e := asm.NewEmitter(make([]byte, 400), true)
+		e.BRA("far")
+		e.EmitBytes(make([]byte, 300))
+		e.Label("far")
+		_ = e.Finalize()
+		_ = e.WriteTextTo(&failWriter{after: 1})
+		_ = e.WriteHexTo(&failWriter{after: 0})
+	})
+	try(func() { e := asm.NewEmitter(nil, true); e.BNE("x"); e.Label("x"); _ = e.Finalize() })
+	try(func() {
+		a := asm.NewEmitter(make([]byte, 2), false)
+		c := a.Clone(make([]byte, 16))
+		c.EmitBytes(make([]byte, 8))
+		a.Append(c)
+	})
+	// bus and system
+	try(func() { b, _ := bus.New(); b.EaRead(0x1234) })
+	try(func() { b, _ := bus.New(); b.EaWrite(0x1234, 1) })
+	try(func() { b, _ := bus.New(); _ = b.Attach(&fakeMem{}, "x", 1, 0x20) })
+	try(func() { b, _ := bus.New(); _ = b.EaDump(0x10, 0x40, make([]byte, 8)) })
+	try(func() {
+		s := new(emulator.System)
+		_ = s.CreateEmulator()
+		s.Logger = &failWriter{after: 0}
+		s.SetPC(0x408000)
+		s.RunUntil(0x123456, 10)
+	})
+	// colour and mappers
+	try(func() { color15.Color(0x7FFF).MulDiv(3, 0) })
+	for _, m := range mappers {
+		m := m
+		try(func() { _, _ = m.b2p(0x002100); _, _ = m.p2b(0xF00000); _, _ = m.b2p(0xFFFFFFFF) })
+	}
 }
